@@ -55,5 +55,6 @@ def run(ctx, R):
     rtpreserve.rule_a64_rcplit(ctx, R)
     rtpreserve.rule_const(ctx, R, 'a64')
     a64dsread.rule_dsread(ctx, R)
+    a64dsread.rule_loopload(ctx, R)
     genreset.rule_ctor_init(ctx, R, 'a64')
     rtpreserve.rule_store_order(ctx, R, 'a64')
